@@ -1393,3 +1393,8 @@ NOT_PROVED = NOT_PROVED + ['f64 rounding of products with real entries is bounde
 # Generated/SrcC05Mut.lean and proved equal to the hand model in Props/SrcTieC05Mut.lean)
 from . import srctie
 srctie.wire_mut(globals(), 'C05')
+
+# --- source tie, whole functions (translator pass 4: matmul and matmul_blocked regenerated from utils.rs into Generated/SrcC05Mut2.lean,
+# proved equal to the hand model in Props/SrcTieC05Mut2.lean)
+from . import srctie
+srctie.wire_mut2(globals(), 'C05')
